@@ -526,12 +526,13 @@ CORPUS_FIXED = [
 ]
 
 
-def _corpus_shard(shard: T.List[str], ev: Evidence, fails: T.List[Failure]) -> None:
+def _corpus_shard(shard: T.List[T.Tuple[str, T.Tuple[str, ...]]], ev: Evidence, fails: T.List[Failure]) -> None:
     work = make_scratch('c15-corpus')
     sigs: T.Set[str] = set()
     try:
         for pth in shard:
-            f = c15_corpus.check_corpus({'corpus': pth}, os.path.join(work, 'case'), ev)
+            case = {'corpus': pth[0], 'args': list(pth[1])} if pth[1] else {'corpus': pth[0]}
+            f = c15_corpus.check_corpus(case, os.path.join(work, 'case'), ev)
             if f is not None and f.sig not in sigs:
                 sigs.add(f.sig)
                 fails.append(f)
@@ -550,13 +551,15 @@ def run(ctx: Ctx) -> None:
     import random
     per = ctx.n(7, 90)
     projs = c15_corpus.corpus_projects()
+    variants: T.List[T.Tuple[str, ...]] = [(), ('--layout=flat',), ('-Ddefault_library=both', '-Dbuildtype=release', '-Db_ndebug=true')]
     if ctx.quick:
         fixed = [p for p in CORPUS_FIXED if p in projs]
         rest = [p for p in projs if p not in fixed]
-        random.Random(f'c15-corpus:{ctx.seed}').shuffle(rest)
-        chosen = fixed + rest[:32]
+        rnd = random.Random(f'c15-corpus:{ctx.seed}')
+        rnd.shuffle(rest)
+        chosen = [(p, ()) for p in fixed] + [(p, rnd.choice(variants)) for p in rest[:16]]
     else:
-        chosen = projs
+        chosen = [(p, v) for p in projs for v in variants]
     ctx.ev.extra['corpus_projects_taken'] = len(chosen)
     nsh = 16 if ctx.quick else 48
     corpus = [('corpus', chosen[i::nsh]) for i in range(nsh) if chosen[i::nsh]]
